@@ -18,8 +18,8 @@ RULE = ("canonical G-doc documents (all wrapper shapes, 0-2 let layers) x paths 
         "separate parses of the same text, optionally after a random prefix history of 0-6 edits: "
         "idempotence (set p v; set p v == set p v), restore (fresh single-segment or scoped p: set "
         "p v; rm p == original text, canonical prefix-free documents only), rm-set (rm p; set p "
-        "old gives the same attribute tree), commutation (two sets on different existing paths, "
-        "either order, same text); non-trivial = a law instance whose operations all succeeded; "
+        "old gives the same attribute tree, for plain, nested and dotted paths), commutation (two "
+        "sets, and two removals, on different existing paths, either order, same text); non-trivial = a law instance whose operations all succeeded; "
         "distinct by (text, law, ops) hash")
 ASSUMPTIONS = [
     "alternative histories are compared with each other; no external oracle",
@@ -151,8 +151,9 @@ def run_shard(spec):
                                     f"BACK={back!r}")
             # ---- rm then set old value: same tree
             simple_leaves = [p for p in leaves if len(p) == 1]
-            if simple_leaves:
-                p = rng.choice(simple_leaves)
+            if simple_leaves or leaves:
+                # any written leaf: plain, nested or dotted (`a.b.c = v;`)
+                p = rng.choice(simple_leaves) if (simple_leaves and rng.random() < 0.4) else rng.choice(leaves)
                 node = A.lookup(tree, list(p))
                 loc = None
                 from nmverif.oracle import editjudge as J
@@ -168,9 +169,29 @@ def run_shard(spec):
                         B.bump(obs["laws"], "rm-set-tree")
                         nontriv.add(B.h64(text + "\0rmset\0" + sp))
                         if tree_of(again) != tree_of(text):
-                            witness("rm-set-tree", {"effect": "tree-differs", "wrappers": wl},
+                            witness("rm-set-tree", {"effect": "tree-differs", "wrappers": wl,
+                                                    "path_len": str(min(len(p), 3))},
                                     {**base_case, "ops": [["rm", sp, ""], ["set", sp, old]]},
                                     f"AGAIN={again!r}")
+            # ---- two removals commute (same text either order)
+            if len(leaves) >= 2:
+                p1, p2 = rng.sample(leaves, 2)
+                if p1[: len(p2)] != p2 and p2[: len(p1)] != p1:
+                    a = E.Op("rm", E.spell(p1), "")
+                    b = E.Op("rm", E.spell(p2), "")
+                    ab, r = run_seq(text, [a, b])
+                    ba, r_ = run_seq(text, [b, a])
+                    res["evaluations"] += 1
+                    if ab is None or ba is None:
+                        obs["refused_instances"] += 1
+                    else:
+                        B.bump(obs["laws"], "rm-commute")
+                        nontriv.add(B.h64(text + "\0rmcomm\0" + a.npath + b.npath))
+                        if ab != ba:
+                            witness("rm-commute", {"effect": "order-dependent-text", "wrappers": wl,
+                                                   "tree_equal": str(tree_of(ab) == tree_of(ba))},
+                                    {**base_case, "ops": [["rm", a.npath, ""], ["rm", b.npath, ""]]},
+                                    f"AB={ab!r} BA={ba!r}")
             # ---- commutation
             if len(leaves) >= 2:
                 p1, p2 = rng.sample(leaves, 2)
